@@ -109,6 +109,11 @@ def write_worker(lines):
             continue
         ftype, tpb, storable, tracks, norm, canon = c07.parse_file_row(ints)
         if not storable:
+            # a save that fails must not influence what later saves write
+            try:
+                smf.save_bytes(c07.build_file(ftype, tpb, tracks))
+            except Exception:
+                pass
             continue
         mid = c07.build_file(ftype, tpb, tracks)
         try:
